@@ -273,7 +273,7 @@ class CodeGenerator(StructuredCodeGenerator):
         from dagrt.codegen.dag_ast import create_ast_from_phase
 
         self.begin_emit(dag)
-        for phase_name in dag.phases.keys():
+        for phase_name in sorted(dag.phases.keys()):
             ast = create_ast_from_phase(dag, phase_name)
             self._pre_lower(ast)
             self.lower_function(phase_name, ast)
@@ -365,7 +365,7 @@ class CodeGenerator(StructuredCodeGenerator):
             phase_name: (
                 phase.next_phase,
                 BareExpression("self.phase_"+phase_name))
-            for phase_name, phase in dag.phases.items()}))
+            for phase_name, phase in sorted(dag.phases.items())}))
         emit("")
 
         self._class_emitter.incorporate(emit)
